@@ -60,16 +60,24 @@ def run_cfg(chk, facts, cfg):
             for f in v[3]:
                 out.extend(alpha_vec(f))
             return out
+        if v == T.AUX:
+            return []      # auxiliary fields carry no statistic
         return [v]
 
     def comps_of(v):
         out = []
         if v[0] == 'adt' and v[1] == sm.kahan['path']:
-            return [x for j, x in enumerate(v[3]) if j != sm.k_sum]
+            return [x for j, x in enumerate(v[3]) if j != sm.k_sum and j not in sm.k_aux]
         if v[0] == 'adt':
             for f in v[3]:
                 out.extend(comps_of(f))
         return out
+
+    def plain_state(adt, tag):
+        """symbolic state of a type whose statistic fields are plain counters (proportion / quantile Stats)"""
+        aux = facts.aux_fields.get(adt['path']) or set()
+        n_ = len(adt['variants'][0]['fields'])
+        return ('adt', adt['path'], 0, tuple(T.AUX if i in aux else T.sym('f%d%s' % (i, tag)) for i in range(n_)))
 
     # ---- symbolic operand pairs per type
     types = []
@@ -82,12 +90,18 @@ def run_cfg(chk, facts, cfg):
             types.append((nm, adt, (lambda adt: lambda t: sm.wrapper_state(adt, arith(t)))(adt)))
     uadt = sm.adt('Unpaired')
     if chk.anchor('Unpaired' + sfx, uadt):
-        types.append(('Unpaired', uadt, lambda t: ('adt', uadt['path'], 0, (arith('a' + t), arith('b' + t)))))
+        def unpaired_state(t):
+            aux = facts.aux_fields.get(uadt['path']) or set()
+            real = [i for i in range(len(uadt['variants'][0]['fields'])) if i not in aux]
+            if len(real) != 2:
+                raise Unsupported('Unpaired does not consist of two sample states (%d statistic fields)' % len(real))
+            vals = {real[0]: arith('a' + t), real[1]: arith('b' + t)}
+            return ('adt', uadt['path'], 0, tuple(vals.get(i, T.AUX) for i in range(len(uadt['variants'][0]['fields']))))
+        types.append(('Unpaired', uadt, unpaired_state))
     for p in ('proportion::Stats', 'quantile::Stats'):
         adt = facts.adts.get(p)
         if chk.anchor(p + sfx, adt):
-            nfld = len(adt['variants'][0]['fields'])
-            types.append((p, adt, (lambda adt, nfld: lambda t: ('adt', adt['path'], 0, tuple(T.sym('f%d%s' % (i, t)) for i in range(nfld))))(adt, nfld)))
+            types.append((p, adt, (lambda adt: lambda t: plain_state(adt, t))(adt)))
 
     for name, adt, mk in types:
         path = adt['path']
